@@ -201,6 +201,35 @@ def valid_schnorr(key_x, msg, sig):
     return wrapb(b_cmp("eq", node, const(1)))
 
 
+# honest signatures made on this path (key encoding, digest, signature): an ideal signature is valid only for the digest it was
+# made for (unforgeability) -- instantiated where a verification of the same signature bytes on ANOTHER digest is asked (O2-edited)
+SIGNED_E = []
+SIGNED_S = []
+UNFORGEABLE = [False]
+
+
+def verify_ecdsa_ideal(key_enc, z, der):
+    r = valid_ecdsa(key_enc, z, der)
+    if UNFORGEABLE[0]:
+        for (k0, z0, d0) in SIGNED_E:
+            if len(d0) == len(der) and len(k0) == len(key_enc) and (d0 is der or bool(core.sbytes(d0) == der)):
+                assume_nq(s_or(s_not(r), lift_eq(z, z0)))
+    return r
+
+
+def verify_schnorr_ideal(key_x, msg, sig):
+    r = valid_schnorr(key_x, msg, sig)
+    if UNFORGEABLE[0]:
+        for (k0, m0, s0) in SIGNED_S:
+            if len(s0) == len(sig) and (s0 is sig or bool(core.sbytes(s0) == sig)):
+                assume_nq(s_or(s_not(r), core.sbytes(m0) == msg))
+    return r
+
+
+def lift_eq(a, b):
+    return a == b
+
+
 class SigStub:
     def __init__(self, der):
         self.der_bytes = der
@@ -266,12 +295,12 @@ class KeyStub:
 
     # -- the abstraction
     def verify(self, z, sig):
-        return valid_ecdsa(self.enc, z, sig.der_bytes)
+        return verify_ecdsa_ideal(self.enc, z, sig.der_bytes)
 
     def verify_schnorr(self, msg, sig):
         if len(sig.raw) != 64:
             return False
-        return valid_schnorr(self.xonly(), msg, sig.raw)
+        return verify_schnorr_ideal(self.xonly(), msg, sig.raw)
 
     def tweak(self, merkle_root=b""):
         return loader.load("hash").hash_taptweak(self.xonly() + merkle_root)
@@ -357,6 +386,7 @@ class PrivStub:
         assume_nq(s_and(r[0] >= 1, r[0] < 0x80, s[0] >= 1, s[0] < 0x80))
         der = b"\x30\x44\x02\x20" + r + b"\x02\x20" + s
         assume_nq(s_and(valid_ecdsa(self.point.enc, z, der), *[s_not(valid_ecdsa(o, z, der)) for o in self.others]))
+        SIGNED_E.append((self.point.enc, z, der))
         return SigStub(der)
 
     def sign_schnorr(self, msg, aux=None):
@@ -364,6 +394,7 @@ class PrivStub:
         raw = SBytes.sym(f"sig{ST.nsig}.{self.name}", 64)
         assume_nq(raw[32] < 0x80)
         assume_nq(s_and(valid_schnorr(self.point.xonly(), msg, raw), *[s_not(valid_schnorr(o, msg, raw)) for o in self.others]))
+        SIGNED_S.append((self.point.xonly(), msg, raw))
         return SchnorrStub(raw)
 
 
@@ -1085,7 +1116,7 @@ def honest_path(tmpl, m, n, signers, commit=None, n_in=1, idx=0):
     outpriv = PrivStub(KeyStub(t.outkey), "out", others=list(t.xkeys)) if t.schnorr else None
     f = sym_fields()
     good = committed_value(t)
-    if commit:
+    if commit and commit != "edited":
         hx = SBytes.sym("hx", len(good))
         assume_nq(core.sbytes(hx) != good)
         t.spk = wrong_commitment(t, commit, hx)
@@ -1099,13 +1130,39 @@ def honest_path(tmpl, m, n, signers, commit=None, n_in=1, idx=0):
         ok, how = False, "error:" + type(e).__name__
     enough = signers == ("keypath",) or len(set(signers)) >= t.need
     expect = enough and not commit
+    edited = None
+    if commit == "edited":
+        # history on one object: after the spend verified, a committed field is changed in place; the SAME object must now reject
+        # (ideal signatures are valid only for the digest they were made for; digests of different preimages differ)
+        expect = enough
+        if ok:
+            UNFORGEABLE[0] = True
+            try:
+                new_amt = SI.var("new_amount", 0, (1 << 63) - 1)
+                assume_nq(new_amt != f["amount"])
+                tx.tx_outs[0].amount = new_amt
+                try:
+                    edited = bool(tx.verify_input(idx))
+                except Exception:
+                    edited = False
+            finally:
+                UNFORGEABLE[0] = False
 
     def wfn(env):
         w = {"template": tmpl, "m": m, "n": n, "n_in": n_in, "idx": idx, "signers": list(signers), "commit": commit,
              "tx": dict({v: env[v] for v in TXVARS}, prev=core.bytes_env(env, "prev", 32).hex())}
-        if commit:
+        if commit == "edited":
+            w["new_amount"] = env.get("new_amount", 0)
+        elif commit:
             w["hx"] = core.bytes_env(env, "hx", len(good)).hex()
         return w
+    if commit == "edited":
+        if ok:
+            check(not edited, "a signed spend still verifies on the same Tx object after a committed output amount was changed in place",
+                  witness=wfn)
+            return "edited-rejected" if not edited else "edited-accepted"
+        check(ok, "a spend signed through the library with the required keys does not verify", witness=wfn)
+        return how
     if expect:
         check(ok, "a spend signed through the library with the required keys does not verify", witness=wfn)
     elif commit:
@@ -1120,7 +1177,7 @@ def ob_honest(tmpl, m, n, cases, commit=None):
     r = merge_runs(runs)
     r["sample"] = {"template": tmpl, "m": m, "n": n, "signer sets": [list(c) for c in cases], "commitment": commit or "genuine",
                    "keys / signatures / transaction fields": "symbolic"}
-    want = "'rejected'" if commit else "'ok'"
+    want = "'edited-rejected'" if commit == "edited" else ("'rejected'" if commit else "'ok'")
     if want not in r["classes"] and not any(k.startswith("'error") for k in r["classes"]) and not r["violations"]:
         r["inconclusive"].append(f"reachability twin: outcome {want} never reached")
     return r
@@ -1137,7 +1194,7 @@ def replay_honest(w):
         order = sorted(range(len(privs)), key=lambda i: privs[i].point.xonly())
         privs = [privs[i] for i in order]
         t = RealTmplOrdered(w["template"], w["m"], w["n"], privs, t.ipriv)
-    if w.get("commit"):
+    if w.get("commit") and w["commit"] != "edited":
         t.spk = wrong_commitment(t, w["commit"], bytes.fromhex(w["hx"]))
     tx = build_tx(t.md, t.spk, [], [], w["n_in"], w["idx"], f)
     try:
@@ -1145,6 +1202,16 @@ def replay_honest(w):
         how = "returned %r" % ok
     except Exception as e:
         ok, how = False, "raised %r" % (e,)
+    if w.get("commit") == "edited":
+        if not ok:
+            return {"violated": True, "observed": f"{w['template']}: honestly signed spend does not verify ({how})"}
+        tx.tx_outs[0].amount = w["new_amount"] if w["new_amount"] != tx.tx_outs[0].amount else tx.tx_outs[0].amount + 1
+        try:
+            ok2 = bool(tx.verify_input(w["idx"]))
+        except Exception:
+            ok2 = False
+        return {"violated": ok2, "observed": f"{w['template']} {w['m']}-of-{w['n']}: verified, then tx_outs[0].amount changed in place on the "
+                                             f"same object, verify_input again -> {ok2}"}
     enough = signers == ("keypath",) or len(set(signers)) >= t.need
     expect = enough and not w.get("commit")
     return {"violated": ok != expect,
@@ -1268,6 +1335,8 @@ def obligations(tier):
         full = tuple(range(m)) if tmpl not in ("p2pkh", "p2wpkh", "p2sh-p2wpkh") else (0,)
         cases = [full] + ([("keypath",)] if tmpl == "p2tr-checksig" else [])
         obs.append(Ob("O3-commitment", ob_honest, {"tmpl": tmpl, "m": m, "n": n, "cases": tuple(cases), "commit": "wrong"}, replay="honest"))
+        # history: verify, change a committed output amount in place, verify again on the same object
+        obs.append(Ob("O2-edited-after-signing", ob_honest, {"tmpl": tmpl, "m": m, "n": n, "cases": tuple(cases), "commit": "edited"}, replay="honest"))
     # a second input position: the proper spend shapes with the input under test at index 1 of 2
     for (tmpl, m, n) in (("p2pkh", 1, 1), ("p2wpkh", 1, 1), ("p2sh-ms", 1, 2), ("p2wsh-ms", 1, 2), ("p2tr-checksig", 1, 1), ("p2tr-csa", 1, 2)):
         shapes = attack_shapes(tmpl, m, n, tier)
